@@ -67,3 +67,11 @@ Definition run_mp_manager_mode : bool * bool := (true, false).
 
 (* FileSearcher._run_single: SearchTaskResultsManager(results_store, results_collection=results_collection) *)
 Definition run_single_manager_mode : bool * bool := (false, true).
+
+(* get_source_id: reuse iff _path == path; source_id = 0; source_id = max(list(self._source_ids)) + 1 *)
+Definition source_id_reused_iff_same_path_string : bool := true.
+Definition source_id_first : Z := 0.
+Definition source_id_fresh (max_id : Z) : Z := (max_id + 1).
+
+(* ResultStoreParallel.local: a store object without a local store creates a NEW ResultStoreSimple and consults nothing outside itself (no process-wide cache) *)
+Definition worker_local_store_fresh_per_task : bool := true.
